@@ -486,6 +486,9 @@ protected:
                 m_constants.s_cdataCloseString,
                 m_constants.s_cdataCloseStringLength);
         }
+
+        // A CDATA section is text, so nothing must be inserted after it.
+        m_indentHandler.setPrevText(true);
     }
 
     /**
